@@ -31,6 +31,8 @@ CHECKS = {
          'bounded exhaustive enumeration of (grammar, text, window) against a brute-force leftmost-longest oracle'),
  'C13': ('model_checking', '4 C13', 'Explicit-state breadth-first search over fork trees of the real interactive parser (feed of every terminal legal or not, copy, copy.copy, as_immutable, as_mutable, immutable feed, accepts, feed_eof; <= 3 live handles; alias-preserving heap fingerprints) on 10 grammars x 4 option sets: every handle, finished results included, must equal a fresh parser fed its own history, accepts() must be exact, feed+eof must equal parse(text); a deep narrow mode (depth 8) and a text-attached part (resume_parse / exhaust_lexer on forks, lexer positions observed).',
          'explicit-state search over operation histories on live objects with a fresh-replay reference'),
+ 'C10': ('model_checking', '4 C10', 'Part A: every call history up to depth 3 (thorough 4) over a per-configuration alphabet of 13-19 operations (parse ok/failing, lex consumed/abandoned/dont_ignore, scan, abandoned interactive sessions, other instances) on 9 configurations incl. a stateful Indenter: every step must equal the same operation on a fresh instance. Part B: all schedules with <= 2 (thorough 3) preemptions of 2-3 real threads sharing one cold instance, under a cooperative scheduler built on sys.monitoring whose scheduling points are discovered from object-graph snapshots; every thread must observe its sequential result; the idempotent warm-up obligation is checked.',
+         'explicit-state search over call histories + stateless preemption-bounded schedule exploration of real threads'),
 }
 NOT_YET = {}
 def main():
